@@ -3,6 +3,7 @@ import sys
 from fractions import Fraction
 
 import numpy as np
+import pandas as pd
 
 from harness import direct
 from harness.c01 import qlit
@@ -388,3 +389,33 @@ def run(ctx):
         l2 = ChangeScore(L2Cost()).fit(X).evaluate(cuts3)
         if not direct.close(cu, l2, scale=float(np.sum(X ** 2))):
             ctx.violation("CUSUM^2 differs from ChangeScore(L2Cost) on a long series", {"n": n, "cuts": cuts3.tolist()}, {"what": "cusum-vs-l2", "long": True})
+    # ---- integer-dtype data with NON-integer fixed parameters: the baseline parameter must not be coerced to the data's dtype ----
+    from skchange.costs import GaussianVarCost
+    for it in range(ctx.n(6, 40)):
+        n = rng.randint(8, 30)
+        p = rng.choice([1, 2, 3])
+        Xi = np.asarray([[rng.randint(0, 9) + (5 if t > n // 2 else 0) for _ in range(p)] for t in range(n)], dtype=np.int64)
+        Xf = Xi.astype(float)
+        mu = rng.choice([2.5, 0.25, -1.75, 3.1])
+        var = rng.choice([4.5, 0.5, 2.25])
+        s = rng.randint(0, n - 3)
+        e = rng.randint(s + 2, n)
+        cut = np.asarray([[s, e]])
+        plans = [("L2Cost(%r)" % mu, lambda: L2Cost(mu), lambda X: direct.cost_direct("l2", mu, X, s, e)),
+                 ("GaussianVarCost((%r, %r))" % (mu, var), lambda: GaussianVarCost((mu, var)), lambda X: direct.cost_direct("gvar", (mu, var), X, s, e)),
+                 ("Saving(L2Cost(%r))" % mu, lambda: Saving(L2Cost(mu)), lambda X: direct.saving_direct("l2", mu, X, s, e)),
+                 ("Saving(GaussianVarCost((%r, %r)))" % (mu, var), lambda: Saving(GaussianVarCost((mu, var))), lambda X: direct.saving_direct("gvar", (mu, var), X, s, e))]
+        for name, mk, ref in plans:
+            want = np.asarray(ref(Xf), dtype=float)
+            for tag, Xin in (("int64 ndarray", Xi), ("integer DataFrame", pd.DataFrame(Xi)), ("float64 ndarray", Xf)):
+                ctx.case({"intdata": name, "it": it, "tag": tag, "cut": [s, e]}, nontrivial=True)
+                try:
+                    got = mk().fit(Xin).evaluate(cut)[0]
+                except Exception as ex:
+                    ctx.violation(f"{name} on {tag}: raised {type(ex).__name__}: {str(ex)[:100]}", {"X": Xi.tolist(), "cut": [s, e], "container": tag},
+                                  {"what": "int-data-exception", "scorer": name.split("(")[0]})
+                    continue
+                if not direct.close(got, want, scale=float(np.sum(Xf ** 2)) + 1.0):
+                    ctx.violation(f"{name} fitted on {tag} gives {np.asarray(got).tolist()} on {[s, e]}, the definition with the parameter as given gives {want.tolist()} "
+                                  f"(a non-integer baseline parameter must not be converted to the data's integer dtype)",
+                                  {"X": Xi.tolist(), "cut": [s, e], "container": tag, "mean": mu, "var": var}, {"what": "int-data-fixed-param", "scorer": name.split("(")[0]})
